@@ -88,7 +88,8 @@ REQUIRED_CLAUSES = ["args-unchanged", "module-tables-unchanged",
                     "args-unchanged-during-call",
                     "independent-of-decimal-context",
                     "explicit-defaults==omitted", "angle-form==number-form",
-                    "uneven-tables->ValueError"]
+                    "uneven-tables->ValueError",
+                    "undocumented-name->ValueError"]
 
 
 # ------------------------------------------------------------------ discovery
@@ -2011,6 +2012,68 @@ def case_out_of_range(mon):
             continue
         mon.dev("uneven-tables->ValueError",
                 {"probe": name, "returned": repr(r)[:200]})
+    # arguments that name one of a documented closed set of choices (month
+    # names, season / phase / apsis / node / declination targets): a string
+    # whose letters are not those of a documented choice is refused with
+    # ValueError - answering as if it were the nearest choice is a silent
+    # non-value.  (Case and surrounding blanks are left out for the month
+    # names, which the library documents as tolerant of both.)
+    def near_misses(valid, tolerant):
+        seen = {v.strip().lower() for v in valid}
+        out = []
+        for v in valid:
+            cand = [v + "k", v + v[-1], v[:-1], v[:4], v[:2], v[1:],
+                    v[:3] + "k", v[:3] + "zipan", v[:3] + ".", v[:3] + " " +
+                    v[3:], "x" + v, v.replace(v[1], "_", 1), v[::-1]]
+            if not tolerant:
+                cand += [v + "\n", v + " ", " " + v, v + "\t", v.upper(),
+                         v.capitalize(), v + "\x00"]
+            for c in cand:
+                key = c.strip().lower() if tolerant else c
+                if key and key not in seen and c not in out:
+                    out.append(c)
+        return out + ["", " "]
+    months = ["January", "February", "March", "April", "May", "June", "July",
+              "August", "September", "October", "November", "December",
+              "Jan", "Feb", "Mar", "Apr", "Jun", "Jul", "Aug", "Sep", "Oct",
+              "Nov", "Dec"]
+    e2000 = (2000, 1, 10)
+    named = [
+        ("Epoch.get_month(%r)", months, True,
+         lambda t: Epoch.get_month(t)),
+        ("Epoch.get_month(%r, as_string=True)", months, True,
+         lambda t: Epoch.get_month(t, as_string=True)),
+        ("Epoch(2000, %r, 15)", months, True, lambda t: Epoch(2000, t, 15)),
+        ("Epoch().set(2000, %r, 15)", months, True,
+         lambda t: Epoch(*e2000).set(2000, t, 15)),
+        ("Sun.get_equinox_solstice(2000, %r)",
+         ["spring", "summer", "autumn", "winter"], False,
+         lambda t: Sun.get_equinox_solstice(2000, t)),
+        ("Moon.moon_phase(e, %r)", ["new", "first", "full", "last"], False,
+         lambda t: Moon.moon_phase(Epoch(*e2000), t)),
+        ("Moon.moon_perigee_apogee(e, %r)", ["perigee", "apogee"], False,
+         lambda t: Moon.moon_perigee_apogee(Epoch(*e2000), t)),
+        ("Moon.moon_passage_nodes(e, %r)", ["ascending", "descending"],
+         False, lambda t: Moon.moon_passage_nodes(Epoch(*e2000), t)),
+        ("Moon.moon_maximum_declination(e, %r)", ["northern", "southern"],
+         False, lambda t: Moon.moon_maximum_declination(Epoch(*e2000), t)),
+    ]
+    for label, valid, tolerant, fn in named:
+        for t in near_misses(valid, tolerant):
+            name = label % t
+            mon.evals += 1
+            mon.cls("undocumented-name-probe", ("name", name), [name])
+            try:
+                r = fn(t)
+            except ValueError:
+                mon.ok("undocumented-name->ValueError")
+                continue
+            except Exception as ex:
+                mon.dev("undocumented-name->ValueError",
+                        {"probe": name, "raised": repr(ex)})
+                continue
+            mon.dev("undocumented-name->ValueError",
+                    {"probe": name, "returned": repr(r)[:200]})
     for name, fn in probes.items():
         mon.evals += 1
         mon.cls("out-of-range-probe", ("oor", name), [name])
